@@ -70,6 +70,10 @@ CLAIMED["C10"] = dict(cat="model_checking", ref="7 C10", note=CLI_NOTE + "; arit
   text="ClientRun.tla judges every OnTracks / OnData callback of the real Client over synthesised streams (timestamp bases 0..2^40 and around the 33-bit wrap, 1 video + 0..3 audio in one playlist or as renditions with different time scales, track order / id permutations, B-frame PTS offsets, multi-fragment segments, byte ranges, PROGRAM-DATE-TIME with jumps, VOD and live starts): track list, byte identity, per-track order and exactly-once, only downloaded units, never negative time, DTS / PTS / AbsoluteTime error terms, everything delivered at EOS",
   technique="TLA+ monitor (ClientRun.tla) checked by TLC on traces recorded from the real Client; exact-arithmetic annotator for timestamps")
 
+CLAIMED["C12"] = dict(cat="model_checking", ref="7 C12", note=CLI_NOTE + "; Close points are event instants (request arrival, OnTracks, k-th OnData, after the outcome) plus timer-driven Close; goroutines read from runtime.Stack at the moment Wait yields and for 200 ms afterwards",
+  text="ClientLife.tla models the client's goroutines (run, primary downloader, stream downloader, stream processor, track processor), their rendezvous and the ctx.Done alternative of every blocking step, the routine pool and the single result; TLC checks exactly-one value, no goroutine left, no callback afterwards, error surfaced and termination (liveness) for every Close point x fault x OnTracks error, and refutes the weakened variants (start hand-off without ctx, error path without join); every scenario of the model is run on the real Client (fast and slow callbacks) and TLC validates the observations (ClientRun.tla); real outcomes are compared with the model's outcome sets",
+  technique="TLA+ model + TLC safety/liveness; model scenarios (Close point x fault) executed on the real Client; TLC trace validation")
+
 PENDING = "check not built yet in this session (planned, see DESIGN.md section 7); will be claimed once its TLA+ model and conformance harness are committed"
 
 
